@@ -22,6 +22,19 @@ check reports the tie as broken.
    the generated definition describes the executions that do not abort.
  * `sizeof (T)` of a record type is the symbolic parameter sizeof_T.
  * `x[n++] = v` for x in `append_arrays`: ghost outputs x_hit := 1, x_val := v (and n is incremented).
+ * `a[e]` for a (a variable or a struct field) in `array_reads`: the memory read `a e` with `a : Z -> Z` a parameter;
+   `a[e] op= v` / `a[e] = v` for a in `store_arrays`: the value is the output location `a_store` (reads of a[..] as above).
+ * a call of a function in `symbolic_calls` (by name, or through a struct field of that name: `pst->compar (..)`) inside
+   an expression is the parameter <name>_ret (second call in the same slice: <name>2_ret): its value is whatever the callee
+   returns; a call of a function in `const_calls` is the symbolic constant named there (HUGE_VAL = __builtin_huge_val ()).
+ * with `effect_called` every call in `effects` also has the ghost output <callee>_called := 1 (0 on the paths without the call).
+ * `&x` passed to a call in `effects`: the callee stores into x; x is an unknown afterwards (a parameter named x).
+ * an enumerator without folded value is the parameter of its name if `enum_params` is set.
+ * `errno` (`*__errno_location ()`) is the location `errno`; a call listed in `clobbers` makes the locations named there
+   unknown (errno after strtol is whatever strtol left there: a parameter).
+ * `*(T *) p->f` is the location p_f_deref.
+ * floating point: a literal with an integral value, unary minus and comparisons are taken over the exact numbers, as c2g
+   does for + - * (the generated file's header says so).
 """
 import re
 import c2g
@@ -64,6 +77,16 @@ class SliceT(c2g.Translator):
         self.field_reads = tuple(kw.get("field_reads", ()))
         self.effects = tuple(kw.get("effects", ()))
         self.drop_calls = tuple(kw.get("drop_calls", ()))
+        self.array_reads = tuple(kw.get("array_reads", ()))
+        self.store_arrays = tuple(kw.get("store_arrays", ()))
+        self.symbolic_calls = tuple(kw.get("symbolic_calls", ()))
+        self.const_calls = dict(kw.get("const_calls", {}))
+        self.enum_params = bool(kw.get("enum_params", False))
+        self.effect_skip_args = dict(kw.get("effect_skip_args", {}))
+        self.effect_called = bool(kw.get("effect_called", False))
+        self.clobbers = dict(kw.get("clobbers", {}))
+        self.sym_of = {}
+        self.sym_count = {}
         self.uses_word = False
         self.ghost_of = {}         # id(node) -> ghost prefix
         self.ghosts = []           # ghost keys in source order
@@ -79,8 +102,11 @@ class SliceT(c2g.Translator):
                 seen[nm] = seen.get(nm, 0) + 1
                 pre = nm if seen[nm] == 1 else "%s%d" % (nm, seen[nm])
                 self.ghost_of[id(n)] = pre
+                if self.effect_called:
+                    self.ghosts.append(pre + "_called")
                 for i in range(len(n["inner"]) - 1):
-                    self.ghosts.append("%s_arg%d" % (pre, i))
+                    if self.arg_is_ghost(nm, i, n["inner"][1 + i]):
+                        self.ghosts.append("%s_arg%d" % (pre, i))
             if n.get("kind") == "BinaryOperator" and n.get("opcode") == "=":
                 lhs = c2g.skip_parens(n["inner"][0])
                 if lhs.get("kind") == "ArraySubscriptExpr":
@@ -97,6 +123,36 @@ class SliceT(c2g.Translator):
                                 self.ghosts.append(g)
         for s in stmts:
             walk(s, f)
+
+    def addr_of_var(self, a):
+        a = strip(a)
+        if a.get("kind") == "UnaryOperator" and a.get("opcode") == "&":
+            t = strip(a["inner"][0])
+            if t.get("kind") == "DeclRefExpr":
+                return t["referencedDecl"]["name"]
+            return "?"
+        return None
+
+    def arg_is_ghost(self, callee, i, a):
+        return i not in self.effect_skip_args.get(callee, ()) and self.addr_of_var(a) is None
+
+    def fun_name(self, n):
+        """name of the memory-read function for the base of a subscript: a variable or a struct field in array_reads / store_arrays"""
+        b = strip(n["inner"][0])
+        nm = None
+        if b.get("kind") == "DeclRefExpr":
+            nm = b["referencedDecl"]["name"]
+        elif b.get("kind") == "MemberExpr":
+            nm = b.get("name")
+        if nm in self.array_reads or nm in self.store_arrays:
+            return nm
+        return None
+
+    def sym_callee(self, n):
+        """name under which a call inside an expression is symbolic, else None"""
+        c = strip(n["inner"][0])
+        nm = c.get("referencedDecl", {}).get("name") if c.get("kind") == "DeclRefExpr" else (c.get("name") if c.get("kind") == "MemberExpr" else None)
+        return nm if nm in self.symbolic_calls else None
 
     # ---- shapes
     def word_base(self, n):
@@ -214,6 +270,40 @@ class SliceT(c2g.Translator):
             key = self.index_key(n)
             if key is not None:
                 return E(self.lookup(env, key), "Z", True)
+            fnm = self.fun_name(n)
+            if fnm is not None:
+                if fnm not in self.fun_params:
+                    self.fun_params.append(fnm)
+                return E("%s %s" % (fnm, self.expr(n["inner"][1], env).z()))
+        if k == "CallExpr":
+            cn = callee_name(n)
+            if cn in self.const_calls:
+                return E(self.lookup(env, self.const_calls[cn]), "Z", True)
+            sn = self.sym_callee(n)
+            if sn is not None:
+                if id(n) not in self.sym_of:
+                    self.sym_count[sn] = self.sym_count.get(sn, 0) + 1
+                    self.sym_of[id(n)] = sn if self.sym_count[sn] == 1 else "%s%d" % (sn, self.sym_count[sn])
+                return E(self.lookup(env, self.sym_of[id(n)] + "_ret"), "Z", True)
+        if k == "DeclRefExpr" and self.enum_params and n.get("referencedDecl", {}).get("kind") == "EnumConstantDecl":
+            return E(self.lookup(env, n["referencedDecl"]["name"]), "Z", True)
+        if k == "UnaryOperator" and n.get("opcode") == "*" and callee_name(strip(n["inner"][0])) == "__errno_location":
+            return E(self.lookup(env, "errno"), "Z", True)
+        if k == "UnaryOperator" and n.get("opcode") == "*":
+            # a dereference is a location; the pointer itself is not read as a value (c2g would make it a parameter)
+            try:
+                key = self.lvalue_key(n)
+            except c2g.Unsupported:
+                key = None
+            if key is not None:
+                return E(self.lookup(env, key), "Z", True)
+        if k == "FloatingLiteral":
+            v = float(n.get("value"))
+            if v != int(v):
+                raise c2g.Unsupported("floating literal %s in %s" % (n.get("value"), self.fname))
+            return c2g.lit(int(v))
+        if k == "UnaryOperator" and n.get("opcode") == "-" and c2g.is_float(c2g.tystr(n)):
+            return E("- %s" % self.expr(n["inner"][0], env).z())
         if k == "MemberExpr" and n.get("name") in self.field_reads:
             b = strip(n["inner"][0])
             if b.get("kind") == "DeclRefExpr" and n.get("isArrow"):
@@ -238,6 +328,15 @@ class SliceT(c2g.Translator):
                 return key
             if self.append_base(n2) is not None:
                 return self.append_base(n2) + "_val"
+            if self.fun_name(n2) in self.store_arrays:
+                return self.fun_name(n2) + "_store"
+        if n2.get("kind") == "UnaryOperator" and n2.get("opcode") == "*" and callee_name(strip(n2["inner"][0])) == "__errno_location":
+            return "errno"
+        if n2.get("kind") == "UnaryOperator" and n2.get("opcode") == "*":
+            # *(T *) p->f : the object the field points to, whatever scalar type it is read at
+            b = strip(n2["inner"][0])
+            if b.get("kind") == "MemberExpr":
+                return super().lvalue_key(b) + "_deref"
         return super().lvalue_key(n)
 
     def assigned(self, s, acc, declared):
@@ -276,7 +375,16 @@ class SliceT(c2g.Translator):
         t = c2g.skip_parens(s)
         if t.get("kind") == "ConditionalOperator" and c2g.tystr(t) == "void":
             arms = [strip(x) for x in t["inner"][1:]]
-            return any(callee_name(a) in ABORTS for a in arms)
+            if any(callee_name(a) in ABORTS for a in arms):
+                return True
+            # logging macros: `(cond) ? (void) 0 : sc_logf (...)` - every arm is a dropped call or a void constant
+            def nothing(a):
+                if callee_name(a) in self.drop_calls:
+                    return True
+                a2 = c2g.skip_parens(a)
+                return a2.get("kind") == "CStyleCastExpr" and a2.get("castKind") == "ToVoid" and \
+                    c2g.skip_parens(a2["inner"][0]).get("kind") == "IntegerLiteral"
+            return bool(self.drop_calls) and all(nothing(x) for x in t["inner"][1:])
         if t.get("kind") == "CallExpr" and callee_name(t) in ABORTS:
             return True
         return False
@@ -345,10 +453,33 @@ class SliceT(c2g.Translator):
                 return self.stmts(rest, env, K)
             if id(call) in self.ghost_of:
                 pre = self.ghost_of[id(call)]
-                pairs = [("%s_arg%d" % (pre, i), self.expr(a, env)) for i, a in enumerate(call["inner"][1:])]
+                pairs = [("%s_arg%d" % (pre, i), self.expr(a, env)) for i, a in enumerate(call["inner"][1:])
+                         if self.arg_is_ghost(name, i, a)]
+                if self.effect_called:
+                    pairs.insert(0, (pre + "_called", E("1", "Z", True)))
+                env1 = env
+                outs = [self.addr_of_var(a) for a in call["inner"][1:]]
+                if any(o is not None for o in outs) or self.clobbers.get(name):
+                    env1 = dict(env)
+                    for o in self.clobbers.get(name, ()):
+                        env1.pop(o, None)          # e.g. errno after strtol: whatever the callee left there
+                    for o in outs:
+                        if o == "?":
+                            raise c2g.Unsupported("address of a non-variable passed to %s in %s" % (name, self.fname))
+                        if o is not None:
+                            env1.pop(o, None)      # the callee stores into it: unknown from here on
                 if lhs is not None:
-                    pairs.append((lhs, E(self.lookup(env, pre + "_ret"), "Z", True)))
-                return self.ghost_assign(pairs, env, rest, K)
+                    # the whole right-hand side (with its casts) around the call's result
+                    rhs = s["inner"][1] if k == "BinaryOperator" else [c for c in s["inner"][0].get("inner", []) if isinstance(c, dict)][0]
+                    retp = E(self.lookup(env1, pre + "_ret"), "Z", True)
+                    saved = dict(self.call_hooks)
+                    self.call_hooks[name] = lambda T_, n_, e_: retp
+                    try:
+                        val = self.expr(rhs, env1)
+                    finally:
+                        self.call_hooks = saved
+                    pairs.append((lhs, val))
+                return self.ghost_assign(pairs, env1, rest, K)
         return super().stmts(ss, env, K)
 
 
@@ -375,10 +506,17 @@ def emit_block(stmts, gname, outputs, fname, params=(), init=None, ret=None, com
         outs += T.ghosts if o == "*ghosts" else [o]
     has_loops = any(c2g.body_uses_loops(x) for x in stmts)
     # memory-read functions must be known before the loops are emitted
-    if T.field_reads:
+    if T.field_reads or T.array_reads or T.store_arrays:
         found = []
+
+        def fscan(n):
+            if n.get("kind") == "MemberExpr" and n.get("name") in T.field_reads and n["name"] not in found:
+                found.append(n["name"])
+            if n.get("kind") == "ArraySubscriptExpr" and T.fun_name(n) is not None and T.fun_name(n) not in found:
+                # a store-only array needs no read function
+                found.append(T.fun_name(n))
         for s in stmts:
-            walk(s, lambda n: found.append(n["name"]) if n.get("kind") == "MemberExpr" and n.get("name") in T.field_reads and n["name"] not in found else None)
+            walk(s, fscan)
         T.extra = [(f, "Z -> Z") for f in found]
     wordp = []
 
@@ -412,44 +550,37 @@ def emit_block(stmts, gname, outputs, fname, params=(), init=None, ret=None, com
         raise c2g.Unsupported("%s: free variables %s, expected %s" % (fname, sorted(T.params), sorted(want_params)))
     out = ""
     if comment:
-        out += "(* %s *)\n" % comment.replace("*)", "* )")
+        out += "(* %s *)\n" % comment.replace("*)", "* )").replace("(*", "( *")
     out += "".join(a for _, a in T.aux)
     out += "Definition %s %s :=\n%s.\n" % (gname, plist, text)
     return out, dict(name=gname, cname=fname, params=[p for p, _ in fps] + list(T.params), outputs=outs, fuel=has_loops)
 
 
-def emit_cond(node, gname, fname, want_params=None, comment="", **kw):
+def _emit_e(node, gname, fname, want_params, comment, params, kind, kw):
+    T = SliceT(**kw)
+    T.fname, T.gname = fname, gname
+    T.free_as_params = True
+    T.fun_params = []
+    T.params = list(params)
+    e = T.expr(node, dict((p, p) for p in params))
+    if T.uses_word:
+        raise c2g.Unsupported("%s: word read inside an expression slice" % fname)
+    if want_params is not None and sorted(T.params) != sorted(want_params):
+        raise c2g.Unsupported("%s: free variables %s, expected %s" % (fname, sorted(T.params), sorted(want_params)))
+    plist = " ".join(["(%s : Z -> Z)" % f for f in T.fun_params] + ["(%s : Z)" % p for p in T.params])
+    out = ("(* %s *)\n" % comment.replace("*)", "* )").replace("(*", "( *")) if comment else ""
+    out += "Definition %s %s : %s :=\n%s.\n" % (gname, plist, "bool" if kind == "bool" else "Z", e.b() if kind == "bool" else e.z())
+    return out, dict(name=gname, cname=fname, params=list(T.fun_params) + list(T.params), fuel=False)
+
+
+def emit_cond(node, gname, fname, want_params=None, comment="", params=(), **kw):
     """A condition (expression node) as a boolean function of its free variables."""
-    T = SliceT(**kw)
-    T.fname, T.gname = fname, gname
-    T.free_as_params = True
-    T.fun_params = []
-    e = T.expr(node, {})
-    if T.uses_word or T.fun_params:
-        raise c2g.Unsupported("%s: memory read inside a condition slice" % fname)
-    if want_params is not None and sorted(T.params) != sorted(want_params):
-        raise c2g.Unsupported("%s: free variables %s, expected %s" % (fname, sorted(T.params), sorted(want_params)))
-    plist = " ".join("(%s : Z)" % p for p in T.params)
-    out = ("(* %s *)\n" % comment.replace("*)", "* )")) if comment else ""
-    out += "Definition %s %s : bool :=\n%s.\n" % (gname, plist, e.b())
-    return out, dict(name=gname, cname=fname, params=list(T.params), fuel=False)
+    return _emit_e(node, gname, fname, want_params, comment, params, "bool", kw)
 
 
-def emit_expr(node, gname, fname, want_params=None, comment="", **kw):
+def emit_expr(node, gname, fname, want_params=None, comment="", params=(), **kw):
     """An integer expression as a function of its free variables."""
-    T = SliceT(**kw)
-    T.fname, T.gname = fname, gname
-    T.free_as_params = True
-    T.fun_params = []
-    e = T.expr(node, {})
-    if T.uses_word or T.fun_params:
-        raise c2g.Unsupported("%s: memory read inside an expression slice" % fname)
-    if want_params is not None and sorted(T.params) != sorted(want_params):
-        raise c2g.Unsupported("%s: free variables %s, expected %s" % (fname, sorted(T.params), sorted(want_params)))
-    plist = " ".join("(%s : Z)" % p for p in T.params)
-    out = ("(* %s *)\n" % comment.replace("*)", "* )")) if comment else ""
-    out += "Definition %s %s : Z :=\n%s.\n" % (gname, plist, e.z())
-    return out, dict(name=gname, cname=fname, params=list(T.params), fuel=False)
+    return _emit_e(node, gname, fname, want_params, comment, params, "Z", kw)
 
 
 def find_nodes(n, pred):
